@@ -1,4 +1,4 @@
 HARNESSES = {
     'BlendPremul': dict(inproc_ms=300),
-    'Palette': dict(quick=dict(params={'n': 2}), thorough=dict(params={'n': 4})),
+    'Palette': dict(quick=dict(params={'n': 2}), thorough=dict(params={'n': 8})),
 }
